@@ -584,6 +584,25 @@ fn gen(args: &Args, emit: &mut dyn FnMut(Value)) {
     if args.tier == "thorough" {
         gen_exhaustive(emit);
     }
+    // diff-directed block (only when the library differs from the baseline; see router_gen::hint_block):
+    // the hinted rule sets as pools, histories of n-1 / n / n+1 operations for every hinted number n
+    if !the_hints().is_empty() {
+        let mut lens = the_hints().sizes(300);
+        for (cfg, pool, probes) in hint_block(&mut rng, (args.n / 4).clamp(40, 1000)) {
+            if pool.len() > 80 {
+                continue;
+            }
+            let probes: Vec<Value> = probes.into_iter().take(8).collect();
+            let len = lens.pop().unwrap_or_else(|| rng.range(8, 30));
+            let mut live = Live::new();
+            let mut ops = Vec::new();
+            while ops.len() < len {
+                ops.push(gen_op(&mut rng, &pool, &mut live, true));
+            }
+            emit(json!({"cfg": cfg, "pool": pool, "probes": probes, "ops": ops}));
+        }
+        set_hint_level(1);
+    }
     for i in 0..args.n {
         // a quarter of the cases are scenario histories (see above), the rest random histories
         match i % 8 {
@@ -815,7 +834,7 @@ fn run(case: &Value) -> Obs {
         Some(r) => r,
         None => return Obs::invalid("ops"),
     };
-    if ops.len() > 60 {
+    if ops.len() > 320 {
         return Obs::invalid("history too long");
     }
     let mut ctx = Ctx { config: config.clone(), pool, probes, failure: None, stats: BTreeMap::new() };
